@@ -50,6 +50,13 @@ def program(style, marks, inline, noise):
     L.append("  implicit none")
     emit("integer :: v1", "v1", "  ")
     emit("real :: v2", "v2", "  ")
+    # two entities declared on one line share one comment: both get its metadata and its words
+    if style == "doc":
+        L.append("  integer :: p1, p2")
+        L.append(f"  !{dm} deprecated: true")
+        L.append(f"  !{dm} version: 7")
+        L.append(f"  !{dm}")
+        L.append(f"  !{dm} sharedw1 sharedw2")
     emit("type :: t1", "t1", "  ", can_inline=False)
     emit("integer :: c1", "c1", "    ")
     L.append("  end type t1")
@@ -91,6 +98,13 @@ def search_attachment():
         except Exception as e:
             return {"confirmed": True, "input": {"source": text, "markers": marks}, "actual": f"{type(e).__name__}: {e}", "expected": "parses", "how": f"style {style}"}
         ents = doc_of(f)
+        if style == "doc":
+            for nm in ("p1", "p2"):
+                pv = [v for v in f.modules[0].variables if v.name == nm][0]
+                got = (" ".join(pv.doc_list).split(), bool(pv.meta.deprecated), str(pv.meta.version))
+                if got != (["sharedw1", "sharedw2"], True, "7"):
+                    return {"confirmed": True, "input": {"source": text, "markers": marks}, "actual": {nm: got}, "expected": {nm: (["sharedw1", "sharedw2"], True, "7")},
+                            "how": "two variables declared on one line with a shared comment that starts with metadata lines"}
         for tag, ent in ents.items():
             got = " ".join(ent.doc_list).split()
             if got != words(tag):
@@ -133,7 +147,8 @@ def render_cases(maxblocks=3):
             for sep in SEPS:
                 lines = []
                 for i, k in enumerate(combo):
-                    if i and (sep or k in ("para", "code", "list") or combo[i - 1] in ("para", "code", "list")):
+                    ended = combo[i - 1] in ("note_end", "note_end_post", "note_inline_end", "note_list") if i else False
+                    if i and (sep or not (ended or (k.startswith("note") and combo[i - 1].startswith("note")))):
                         # markdown itself needs a blank line between ordinary blocks; note boxes may be adjacent to each other
                         lines += [""]
                     lines += BLOCKS[k](f"b{i}")
